@@ -107,21 +107,17 @@ Section Fresh.
     unfold mark_child_deleted. eapply fp_bind; [apply fp_remove_with_name; intros f r H; discriminate|intros o _].
     destruct o; [|apply fp_ret; exact I]. eapply fp_bind; [apply fp_gets|intros fuel _; apply fp_notify_delete].
   Qed.
-  Lemma fp_notify_name_change fuel : forall n, fp (notify_name_change fuel n) (fun _ => True).
+  Lemma fp_notify_name_change {A} fuel : forall n (k : M A) Q, fp k Q -> fp (notify_name_change fuel n k) Q.
   Proof.
-    induction fuel as [|k IH]; intros n; cbn [notify_name_change]; [apply fp_panic|].
-    eapply fp_bind; [apply fp_gets|intros p _]. eapply fp_bind with (Q := fun _ => True).
-    - generalize (pn_refs p) as l. induction l as [|[r nm] rest IHl]; [apply fp_ret; exact I|].
-      eapply fp_bind; [apply fp_gets|intros fr _]. destruct (0 <? fr_refs fr)%Z; [|exact IHl].
-      eapply fp_bind; [apply fp_incref|intros _ _]. destruct (fr_parent fr); [|apply fp_panic].
-      eapply fp_bind; [apply fp_gets|intros pfr _]. eapply fp_bind; [apply fp_backend|intros _ _].
-      eapply fp_bind; [exact IHl|intros hs _; apply fp_ret; exact I].
-    - intros h1 _. eapply fp_bind with (Q := fun _ => True); [|intros h2 _; apply fp_ret; exact I].
-      generalize (pn_kids p) as l. induction l as [|[nm c] rest IHl]; [apply fp_ret; exact I|].
-      eapply fp_bind; [apply IH|intros a _]. eapply fp_bind; [exact IHl|intros b _; apply fp_ret; exact I].
+    induction fuel as [|f IH]; intros n k Q Hk; cbn [notify_name_change]; [apply fp_panic|].
+    eapply fp_bind; [apply fp_gets|intros p _].
+    generalize (pn_refs p) as l. induction l as [|[r nm] rest IHl].
+    - generalize (pn_kids p) as kids. induction kids as [|[nm c] rest IHk]; [exact Hk|]. apply IH. exact IHk.
+    - eapply fp_bind; [apply fp_gets|intros fr _]. destruct (0 <? fr_refs fr)%Z; [|exact IHl].
+      eapply fp_bind; [apply fp_incref|intros _ _]. apply fp_with_defer; [apply fp_dec_ref_|].
+      destruct (fr_parent fr); [|apply fp_panic].
+      eapply fp_bind; [apply fp_gets|intros pfr _]. eapply fp_bind; [apply fp_backend|intros _ _; exact IHl].
   Qed.
-  Lemma fp_dec_all l : fp (dec_all l) (fun _ => True).
-  Proof. induction l as [|r t IH]; cbn [dec_all]; [apply fp_ret; exact I|]. eapply fp_bind; [apply fp_dec_ref_|intros _ _; exact IH]. Qed.
   Lemma fp_rename_child_to f old target new : fp (rename_child_to f old target new) (fun _ => True).
   Proof.
     unfold rename_child_to. eapply fp_bind; [apply fp_gets|intros ffr _]. eapply fp_bind; [apply fp_gets|intros tfr _].
@@ -130,7 +126,7 @@ Section Fresh.
       eapply fp_bind; [apply fp_gets|intros fr _]. eapply fp_bind; [fpk|intros _ _]. eapply fp_bind; [fpk|intros _ _]. eapply fp_bind; [fpk|intros _ _].
       eapply fp_bind; [fpk|intros _ _]. eapply fp_bind with (Q := fun _ => True); [destruct (fr_parent fr); [apply fp_dec_ref_|apply fp_panic]|intros _ _]. fpk.
     - intros o _. destruct o; [|apply fp_ret; exact I]. eapply fp_bind; [fpk|intros _ _].
-      eapply fp_bind; [apply fp_gets|intros fuel _]. eapply fp_bind; [apply fp_notify_name_change|intros held _; apply fp_dec_all].
+      eapply fp_bind; [apply fp_gets|intros fuel _]. apply fp_notify_name_change. apply fp_ret; exact I.
   Qed.
 
   Definition wres_fresh (x : res (list N * refid * bval)) : Prop := match x with inl _ => True | inr (_, nr, _) => n0 <= nr end.
